@@ -1,5 +1,6 @@
 import NanoVerif.Proofs.Sem
 import NanoVerif.Proofs.ReuseSeq
+import NanoVerif.Proofs.DisjointSet
 /-
 C19 — Congruent copies of a shape are stored once (oracle-relative part).
 The recognition of congruent copies is picosvg's (`normalize` / `affine_between`): third party,
@@ -85,5 +86,15 @@ example :
     let g : SPaint := .fill (.linear ⟨⟨0, 0⟩, ⟨10, 0⟩, ⟨0, 10⟩⟩ 0)
     ((migrateAll (1/10) between ⟨[], 0⟩ [⟨7, g⟩, ⟨7, g⟩, ⟨7, g⟩]).2.map SPaint.outline, (migrateAll (1/10) between ⟨[], 0⟩ [⟨7, g⟩, ⟨7, g⟩, ⟨7, g⟩]).1.next)
       = ([some 0, some 1, some 1], 2) := by decide +kernel
+
+/-- **C19 / C07 (which glyphs share an OT-SVG document)** `DisjointSet`, the union-find behind `svg._glyph_groups`: after any sequence of
+`make_set` / `union` calls two glyphs are in one class exactly when the `union` calls connect them — so a glyph that reuses a shape always
+lands in the document that defines the shape (the outline is stored once), and glyphs that share nothing are never merged. -/
+theorem groups_are_closure (ops : List DOp) (a b : Nat) :
+    (DSet.empty.run ops).same a b ↔ Relation.EqvGen (fun p q => (p, q) ∈ unionPairs ops) a b :=
+  classes_are_closure ops a b
+
+example : (DSet.empty.run [.union 1 2, .union 3 4, .union 5 6, .union 3 5, .union 7 1, .union 7 3, .make 9]).classes
+    = [[1, 2, 3, 4, 5, 6, 7], [9]] := by decide +kernel
 
 end NanoVerif.C19
